@@ -6,9 +6,8 @@
 Default: each patch is applied to a scratch copy of /repo (outside /repo and
 /verif, removed afterwards) and the checks run with AIUTI_REPO=<copy>.
 --inplace: git -C /repo apply / checkout -- . (only when nothing else uses /repo).
-Writes seeded/<name>/result.json and prints a table.  Evidence files written by
-these runs describe the MUTATED tree: re-run the checks on the unchanged tree
-before committing evidence.
+Writes seeded/<name>/result.json and prints a table.  The evidence file of each
+check is saved before and restored after the run (evidence describes the unchanged tree).
 """
 import json, os, shutil, subprocess, sys, tempfile, time
 
@@ -59,7 +58,11 @@ def main():
                 env = dict(os.environ, AIUTI_REPO=tree)
                 env.pop('_AIUTI_VERIF_ENV', None)
                 t0 = time.time()
+                evf = os.path.join(VERIF, 'evidence', p + '.json')
+                saved = open(evf).read() if os.path.exists(evf) else None
                 r = run([os.path.join(VERIF, 'check'), p, '--tier', tier], env=env, cwd=VERIF)
+                if saved is not None:       # evidence must describe the unchanged tree
+                    open(evf, 'w').write(saved)
                 viol = [l for l in r.stdout.splitlines() if l.startswith('VIOLATION')]
                 res[p] = dict(status='caught' if (r.returncode == 1 and viol) else f'MISSED(exit={r.returncode})',
                               line=viol[0] if viol else '', wall_s=round(time.time() - t0, 1),
